@@ -220,6 +220,8 @@ class Prog:
                 o.base = base
                 o.v = w.newval()
                 w.log('write', self.tid, self.txn, st[1], base, o.v)
+                if getattr(self, 'since_sp', None) is not None:
+                    self.since_sp.append(st[1])
             except Exception as e:      # noqa: B902
                 w.log('write-error', self.tid, self.txn, st[1],
                       type(e).__name__)
@@ -275,6 +277,14 @@ class Prog:
                 self.tm.abort()
         elif k == 'sp':
             self.tm.savepoint()
+        elif k == 'spk':
+            # a savepoint whose handle is kept for a later rollback
+            self.sp = self.tm.savepoint()
+            self.since_sp = []
+        elif k == 'rb':
+            self.sp.rollback()
+            w.log('rollback', self.tid, self.txn, tuple(self.since_sp))
+            self.since_sp = []
         elif k == 'pack':
             from ZODB.serialize import referencesf
             w.log('pack-start', self.tid)
